@@ -344,7 +344,46 @@ theorem memmoveBack_spec (d s : Nat) (hsd : s ≤ d) : ∀ (n : Nat) (b : Buf), 
 
 /-! ### comparisons -/
 
-theorem key_eq (ct : CT) : Spec.key ct.bits ct.signedCmp = ct.key := rfl
+/-- the order the spec states (`Spec.key`: identity / balanced remainder) is the one `compare_units` computes
+    (`CT.key`: cast to `unsigned char` / subtract 2^bits from the upper half) on every value of the character type -/
+theorem key_eq (ct : CT) (hb : 0 < ct.bits) {u : Nat} (hu : u < 2 ^ ct.bits) : Spec.key ct.bits ct.signedCmp u = ct.key u := by
+  have hp : 2 ^ ct.bits = 2 * 2 ^ (ct.bits - 1) := by
+    have : ct.bits = (ct.bits - 1) + 1 := by omega
+    rw [this, Nat.pow_succ]; simp; omega
+  unfold Spec.key CT.key
+  generalize 2 ^ (ct.bits - 1) = H at *
+  cases ct.signedCmp
+  · simp
+  · simp only [if_true, Bool.true_and, decide_eq_true_eq]
+    rw [Int.bmod_def, hp]
+    have : ((u : Int) % ((2 * H : Nat) : Int)) = u := Int.emod_eq_of_lt (by omega) (by omega)
+    rw [this]
+    split <;> split <;> omega
+
+theorem cmp_congr {k k' : Nat → Int} : ∀ (l1 l2 : List Nat), (∀ x ∈ l1, k x = k' x) → (∀ y ∈ l2, k y = k' y) →
+    Spec.cmp k l1 l2 = Spec.cmp k' l1 l2
+  | [], [], _, _ => rfl
+  | [], _ :: _, _, _ => rfl
+  | _ :: _, [], _, _ => rfl
+  | x :: xs, y :: ys, h1, h2 => by
+    simp only [Spec.cmp, h1 x (by simp), h2 y (by simp)]
+    rw [cmp_congr xs ys (fun z hz => h1 z (List.mem_cons_of_mem _ hz)) (fun z hz => h2 z (List.mem_cons_of_mem _ hz))]
+
+theorem mem_of_mem_upto0 : ∀ {l : List Nat} {y : Nat}, y ∈ Spec.upto0 l → y ∈ l
+  | [], y, h => by simp [Spec.upto0] at h
+  | x :: l, y, h => by
+    by_cases hx : x = 0
+    · simp [Spec.upto0, hx] at h; simp [h, hx]
+    · simp only [Spec.upto0, hx, if_false, List.mem_cons] at h
+      rcases h with h | h
+      · simp [h]
+      · exact List.mem_cons_of_mem _ (mem_of_mem_upto0 h)
+
+/-- `Spec.cmp` under the spec's key = `Spec.cmp` under the model's key, on lists cut out of allocations of units -/
+theorem cmp_key_eq (ct : CT) (hb : 0 < ct.bits) {a b : Buf} (hua : Spec.Units ct.bits a) (hub : Spec.Units ct.bits b)
+    (l1 l2 : List Nat) (h1 : ∀ x ∈ l1, x ∈ a) (h2 : ∀ y ∈ l2, y ∈ b) :
+    Spec.cmp (Spec.key ct.bits ct.signedCmp) l1 l2 = Spec.cmp ct.key l1 l2 :=
+  cmp_congr l1 l2 (fun x hx => key_eq ct hb (hua x (h1 x hx))) (fun y hy => key_eq ct hb (hub y (h2 y hy)))
 
 
 theorem key_inj (ct : CT) (hb : 0 < ct.bits) {x y : Nat} (hx : x < 2 ^ ct.bits) (hy : y < 2 ^ ct.bits)
@@ -738,6 +777,111 @@ theorem strstrOuter_spec (h n : Buf) (q : Nat) (h0n : 0 ∈ n.drop q) (hne : (n.
             funext i; simp [Function.comp]
           rw [hf, hP]
 
+
+/-! ### `strncmp` under the joint precondition, `memmove` across two allocations, `memcpy` inside one -/
+
+theorem cmpReadableN_of_readable : ∀ (r : Nat) (la lb : List Nat), (r ≤ la.length ∨ 0 ∈ la) → (r ≤ lb.length ∨ 0 ∈ lb) →
+    Spec.cmpReadableN la lb r = true := by
+  intro r
+  induction r with
+  | zero => intro la lb _ _; cases la <;> cases lb <;> rfl
+  | succ r ih =>
+    intro la lb ha hb
+    cases la with
+    | nil => rcases ha with h | h <;> simp at h
+    | cons x la =>
+      cases lb with
+      | nil => rcases hb with h | h <;> simp at h
+      | cons y lb =>
+        simp only [Spec.cmpReadableN, Bool.or_eq_true, bne_iff_ne, ne_eq, beq_iff_eq]
+        by_cases hxy : x = y
+        · by_cases hx : x = 0
+          · exact Or.inl (Or.inr hx)
+          · right
+            subst hxy
+            apply ih
+            · rcases ha with h | h
+              · left; simpa using h
+              · right; exact mem_tail_of_ne h hx
+            · rcases hb with h | h
+              · left; simpa using h
+              · right; exact mem_tail_of_ne h hx
+        · exact Or.inl (Or.inl hxy)
+
+theorem strncmpLoop_joint_spec (ct : CT) (a b : Buf) : ∀ (r : Nat) (la lb : List Nat) (i j : Nat), a.drop i = la → b.drop j = lb →
+    Spec.cmpReadableN la lb r = true → (∀ x ∈ la, ∀ y ∈ lb, ct.key x = ct.key y → x = y) →
+    strncmpLoop ct a b r i j = .ok (Spec.cmp ct.key (Spec.upto0 (la.take r)) (Spec.upto0 (lb.take r))) := by
+  intro r
+  induction r with
+  | zero => intro la lb i j _ _ _ _; simp [strncmpLoop, Spec.cmp, Spec.upto0]
+  | succ r ih =>
+    intro la lb i j ha hb hr hinj
+    cases la with
+    | nil => cases lb <;> simp [Spec.cmpReadableN] at hr
+    | cons x la =>
+      cases lb with
+      | nil => simp [Spec.cmpReadableN] at hr
+      | cons y lb =>
+        simp only [strncmpLoop, rd_of_drop_cons ha, rd_of_drop_cons hb, ok_bind, List.take_succ_cons, upto0_cons]
+        by_cases hxy : x = y
+        · subst hxy
+          simp only [ne_eq, not_true_eq_false, if_false, cmp_cons_self]
+          by_cases hx : x = 0
+          · simp [hx, Spec.cmp]
+          · simp only [hx, if_false]
+            refine ih la lb (i + 1) (j + 1) (drop_succ_of_drop_cons ha) (drop_succ_of_drop_cons hb) ?_
+              (fun u hu v hv => hinj u (List.mem_cons_of_mem _ hu) v (List.mem_cons_of_mem _ hv))
+            simpa [Spec.cmpReadableN, hx] using hr
+        · have hk : ct.key x ≠ ct.key y := fun e => hxy (hinj x (by simp) y (by simp) e)
+          simp only [ne_eq, hxy, not_false_eq_true, if_true, cmp_cons_ne ct x y _ _ hk]
+
+theorem memmoveBack2_spec (src : Buf) (d s : Nat) : ∀ (n : Nat) (dst : Buf), s + n ≤ src.length → d + n ≤ dst.length →
+    memmoveBack2 src d s n dst = .ok (Spec.splice dst d ((src.drop s).take n)) := by
+  intro n
+  induction n with
+  | zero => intro dst _ _; simp [memmoveBack2, Spec.splice]
+  | succ r ih =>
+    intro dst hs hd
+    have hs' : s + r < src.length := by omega
+    have hd' : d + r < dst.length := by omega
+    simp only [memmoveBack2, rd_ok' hs', wr_ok' _ hd', ok_bind]
+    rw [ih (dst.set (d + r) src[s + r]) (by omega) (by simp; omega)]
+    congr 1
+    have hw : ((src.drop s).take r).length = r := by simp; omega
+    have e2 : (src.drop s).take (r + 1) = (src.drop s).take r ++ [src[s + r]] := by
+      rw [List.take_succ_eq_append_getElem (by simp; omega)]
+      simp
+    rw [e2]
+    simp only [Spec.splice, hw, List.length_append, List.length_singleton]
+    rw [List.take_set_of_le (by omega : d ≤ d + r), drop_set_self dst (d + r) _ hd']
+    have e3 : d + (r + 1) = d + r + 1 := by omega
+    rw [e3]
+    simp [List.append_assoc]
+
+/-- the forward loop inside one allocation when the source lies wholly below the destination -/
+theorem memmoveFwd_below_spec : ∀ (n : Nat) (b : Buf) (d s : Nat), s + n ≤ d → d + n ≤ b.length →
+    memmoveFwd n b d s = .ok (Spec.splice b d ((b.drop s).take n)) := by
+  intro n
+  induction n with
+  | zero => intro b d s _ _; simp [memmoveFwd, Spec.splice]
+  | succ n ih =>
+    intro b d s hsd hd
+    have hs' : s < b.length := by omega
+    have hd' : d < b.length := by omega
+    simp only [memmoveFwd, rd_ok' hs', wr_ok' _ hd', ok_bind]
+    rw [ih (b.set d b[s]) (d + 1) (s + 1) (by omega) (by simp; omega)]
+    congr 1
+    have hw : ((b.drop (s + 1)).take n).length = n := by simp; omega
+    have e1 : ((b.set d b[s]).drop (s + 1)).take n = (b.drop (s + 1)).take n := by
+      rw [List.drop_set, if_neg (by omega), List.take_set_of_le (by omega)]
+    have e2 : (b.drop s).take (n + 1) = b[s] :: (b.drop (s + 1)).take n := by
+      rw [List.drop_eq_getElem_cons hs', List.take_succ_cons]
+    rw [e1, e2]
+    simp only [Spec.splice, List.length_cons, hw]
+    rw [take_succ_set_self b d _ hd', List.drop_set_of_lt (by omega : d < d + 1 + n)]
+    have e3 : d + 1 + n = d + (n + 1) := by omega
+    rw [e3]
+    simp [List.append_assoc]
 
 /-! ### cutting an allocation after the terminator -/
 
